@@ -539,3 +539,31 @@ func SbixGlyphs(img []byte) (glyphs []SbixGlyph, numGlyphs int) {
 	}
 	return glyphs, numGlyphs
 }
+
+// SynthGSUBLongContexts builds a GSUB table whose lookups are chained contexts (format 3) on
+// glyph gid with one input glyph and the given numbers of lookahead coverages (all sharing one
+// coverage table): legal, unusual, and longer than any context of the corpus fonts.
+func SynthGSUBLongContexts(gid int, lookaheads []int) []byte {
+	var lookups [][]byte
+	for _, n := range lookaheads {
+		var l wbuf
+		l.u16(6, 0, 1, 8) // Lookup: type 6 (chained context), 1 subtable at 8
+		st := l.len()
+		l.u16(3, 0)   // format 3, no backtrack
+		l.u16(1, 0)   // one input coverage (offset patched)
+		l.u16(n)      // lookahead count
+		la := l.len() // lookahead coverage offsets
+		for i := 0; i < n; i++ {
+			l.u16(0)
+		}
+		l.u16(0) // no sequence lookup record
+		cov := l.len() - st
+		l.u16(1, 1, gid)
+		l.patch16(st+6, cov)
+		for i := 0; i < n; i++ {
+			l.patch16(la+2*i, cov)
+		}
+		lookups = append(lookups, l.b)
+	}
+	return layoutTable("ccmp", lookups)
+}
